@@ -4,7 +4,7 @@ cd "$(dirname "$0")" || exit 1
 rc=0
 for f in spec/*.tla mc/*.tla trace/*.tla gen/*.tla; do
   [ -f "$f" ] || continue
-  out=$(java -DTLA-Library=/verif/spec:/verif/mc:/verif/trace:/verif/gen -cp /opt/veriftools/tla/tla2tools.jar:/opt/veriftools/tla/CommunityModules-deps.jar tla2sany.SANY "$f" 2>&1)
+  out=$(java -DTLA-Library="$PWD/spec:$PWD/mc:$PWD/trace:$PWD/gen" -cp /opt/veriftools/tla/tla2tools.jar:/opt/veriftools/tla/CommunityModules-deps.jar tla2sany.SANY "$f" 2>&1)
   if echo "$out" | grep -q "Errors\|Fatal\|Could not"; then echo "SANY failed on $f"; echo "$out" | tail -20; rc=1; fi
 done
 /venv/bin/python -c "import dissect.cstruct" || rc=1
